@@ -9,6 +9,11 @@ run_one() {
   d="$1"; id=$(basename $d); prop=${id:0:3}
   # the property's own check first, then any other check recorded as catching it when the change was confirmed
   others=$(/venv/bin/python -c "import json; m=json.load(open('$d/meta.json')); print(' '.join(c['check'] for c in m.get('checks',[]) if c['check']!='$prop' and c.get('exit')==1))" 2>/dev/null)
+  neutral=$(/venv/bin/python -c "import json; m=json.load(open('$d/meta.json')); print(m.get('neutralised_by',{}).get('commit',''))" 2>/dev/null)
+  if [ -n "$neutral" ]; then
+    need=$(/venv/bin/python -c "import json,sys; m=json.load(open('$d/meta.json')); print(m['needs_to_manifest'].splitlines()[0][:110].replace('|','/'))" 2>/dev/null)
+    echo "| $id | $need | $prop | NEUTRALISED by fix $neutral (no longer breaks the property; was CAUGHT before) |  |"; return
+  fi
   for chk in $prop $others; do
     res=$(MUT_TIER=quick tools/mutant.sh $d/patch.diff $chk 2>&1 | grep -E "^(CAUGHT|MISSED|PATCH-FAILED)" | head -1)
     case "$res" in CAUGHT*) prop=$chk; break;; esac
